@@ -201,7 +201,10 @@ CLAIMS = {
              "CPython every run). (c) Call sites and transforms: `c in b` with a C integer and a bytes object answers like CPython's "
              "membership test on an int object holding exactly c, or - for byte values only - by the direct scan; `a == b` / `a != b` as a "
              "condition on an extension-type operand is the truth of CPython's rich comparison also for IDENTICAL objects (no C-API identity "
-             "shortcut); ConstantFolding._handle_NotNode never negates a chained comparison link-wise. "
+             "shortcut); ConstantFolding._handle_NotNode never negates a chained comparison link-wise; chained comparisons of OBJECTS "
+             "(a < b < c as a value and as a condition, a == b <= c != d) give Python's value, have an exception pending exactly when a "
+             "comparison or a truth test raised, and enter no comparison or truth test while an exception is pending; a link against a C "
+             "integer literal after a membership / str-equality helper passes objects (never an integer cast to PyObject *). "
              "Kernel: programs are the stated catalogue; inputs are universally quantified.",
         note="Trusted: dv C front end, dv/pyobj.py (PyLong 3.12 representation contract, exact-type predicates as views of Py_TYPE, "
              "PyFloat_AS_DOUBLE, PyObject_RichCompare = CPython's own answer), z3; the positional-notation lemma LEX is a lemma unit "
